@@ -53,6 +53,10 @@ CHECKS = {
    technique="symbolic execution of the real Python (own z3-backed path explorer), bounded"),
  "C18": sim("At every scheduler invocation of every explored whole run (greedy and solver-driven plan-ahead policies, chains/joins/conditionals) the real Workload.get_schedulable_tasks is evaluated on the live state and compared with its definition; "
             "lookahead / release_taskgraphs monotonicity is a two-call relational query with symbolic lookaheads; every notify_task_completion result is compared with the ready-children set.", "3/C18"),
+ "C14": dict(level="translation_validation", design="3/C14", engine="mip2smt", note="Trusted base: z3 (Optimize for the two optima per instance), gurobipy / docplex as used by the schedulers, translator vlib/mip2smt.py; the reference semantics in checks/c14.py (independent of the scheduler code; ILP time conventions stated in the evidence). Instance numerics concrete.",
+   text="ILP (goodput goal): for every instance of the bounded family the optimum of the captured model (z3.Optimize over the translated constraints) must equal the optimum of an independent SMT reference of 'feasible plan', and the plan Gurobi returned must attain it; instances where only the exact per-instant reference is higher are the documented conservativeness of the ILP capacity row (known finding). "
+        "TetriSched-Gurobi/CPLEX: over every solution whose objective equals the optimum z3 proves that no offered unplaced task can be added at any allowed (slot, worker, strategy) within capacity/release/deadline; the returned plan is re-checked concretely.",
+   technique="differential SMT optimisation: captured MIP model vs independent reference; all-optimal-solutions maximality queries"),
  "C16": dict(level="model_checking", design="3/C16",
    text="All feasible paths of the real EventTime operators and EventQueue methods are enumerated with symbolic integer operands "
         "(every unit combination, |value| < 2^53 us) and symbolic event times/types; each algebraic law and each pop-is-minimum obligation "
